@@ -73,6 +73,8 @@ func (m *Machine) fmtArgTyped(verb string, v Value, t types.Type) []*Term {
 			n = x.SVal()
 		} else if m.fmtOpaqueInts {
 			return lit("<int>")
+		} else if verb == "%d" || verb == "%v" {
+			return m.itoaSym(sextOrZext(x, signed), signed)
 		} else {
 			n = m.concretizeInt(sextOrZext(x, signed), "fmt integer argument", m.cfgInt("maxFmtForks", 16))
 		}
@@ -485,4 +487,54 @@ func (m *Machine) freshVar(name string, s Sort) *Term {
 	ps.vars = append(ps.vars, full)
 	ps.varSorts[full] = s
 	return Var(full, s)
+}
+
+// itoaSym renders a symbolic 64-bit integer in decimal: the engine forks on sign and
+// number of digits only; every digit is a term (v / 10^k) % 10 + '0'.
+func (m *Machine) itoaSym(v *Term, signed bool) []*Term {
+	var out []*Term
+	u := v
+	if signed {
+		if m.branch(SLt(v, BVC(64, 0))) {
+			out = append(out, BVC(8, '-'))
+			u = Neg(v)
+		}
+	}
+	k := 1
+	pow := uint64(10)
+	for ; k < 20; k++ {
+		if m.branch(ULt(u, BVC(64, pow))) {
+			break
+		}
+		pow *= 10
+	}
+	// k digits
+	div := uint64(1)
+	for i := 1; i < k; i++ {
+		div *= 10
+	}
+	for i := 0; i < k; i++ {
+		d := URem(UDiv(u, BVC(64, div)), BVC(64, 10))
+		out = append(out, Add(Extract(7, 0, d), BVC(8, '0')))
+		div /= 10
+	}
+	return out
+}
+
+func init() {
+	itoa := func(m *Machine, th *Thread, fn *ssa.Function, a []Value) (Value, bool) {
+		t := argTerm(m, a[0])
+		if t.IsConst() {
+			return nil, false
+		}
+		if len(a) > 1 {
+			b := argTerm(m, a[1])
+			if !b.IsConst() || b.c != 10 {
+				return nil, false
+			}
+		}
+		return &StrV{B: m.itoaSym(sextTo64(t, fn.Signature.Params().At(0).Type()), true)}, true
+	}
+	reg("strconv.Itoa", itoa)
+	reg("strconv.FormatInt", itoa)
 }
